@@ -1,0 +1,111 @@
+//go:build verif
+
+// Contracts (machine-checked by /verif/bin/govc) against the MILENAGE
+// specification transcribed in /verif/spec/milspec (TS 35.206, TS 33.102).
+// Comment-only file.
+
+package milenage
+
+//@ func os_memcmp
+//@ prop C15
+//@ requires num: 0 <= num && num <= len(a) && num <= len(b)
+//@ ensures equal: (result == 0) == vc.Forall(0, num, func(i int) bool { return a[i] == b[i] })
+//@ ensures less: (result < 0) == vc.Exists(0, num, func(i int) bool { return a[i] < b[i] && vc.Forall(0, i, func(j int) bool { return a[j] == b[j] }) })
+//@ loop i invariant range (i int, num int): 0 <= i && i <= num
+//@ loop i invariant prefix (i int, a []uint8, b []uint8): vc.Forall(0, i, func(j int) bool { return a[j] == b[j] })
+//@ loop i decreases (i int, num int): num - i
+
+//@ func GenerateOPC
+//@ prop C15
+//@ shape k 16
+//@ shape op 16
+//@ ensures ok: result1 == nil && len(result0) == 16
+//@ ensures opc: vcA16(result0) == milspec.OPc(vcA16(k), vcA16(op))
+
+//@ func milenageF1
+//@ prop C15
+//@ shape opc 16
+//@ shape k 16
+//@ shape _rand 16
+//@ shape sqn 6
+//@ shape amf 2
+//@ shape mac_a 8
+//@ shape mac_s 8
+//@ maynil mac_a mac_s
+//@ ensures ok: result == nil
+//@ ensures f1: vc.Imp(mac_a != nil, vcA8(mac_a) == milspec.F1(vcA16(opc), vcA16(k), vcA16(_rand), vcA6(sqn), vcA2(amf)))
+//@ ensures f1star: vc.Imp(mac_s != nil, vcA8(mac_s) == milspec.F1Star(vcA16(opc), vcA16(k), vcA16(_rand), vcA6(sqn), vcA2(amf)))
+//@ assigns mac_a, mac_s
+
+//@ func milenageF2345
+//@ prop C15
+//@ shape opc 16
+//@ shape k 16
+//@ shape _rand 16
+//@ shape res 8
+//@ shape ck 16
+//@ shape ik 16
+//@ shape ak 6
+//@ shape akstar 6
+//@ maynil res ck ik ak akstar
+//@ ensures ok: result == nil
+//@ ensures f2: vc.Imp(res != nil, vcA8(res) == milspec.F2(vcA16(opc), vcA16(k), vcA16(_rand)))
+//@ ensures f3: vc.Imp(ck != nil, vcA16(ck) == milspec.F3(vcA16(opc), vcA16(k), vcA16(_rand)))
+//@ ensures f4: vc.Imp(ik != nil, vcA16(ik) == milspec.F4(vcA16(opc), vcA16(k), vcA16(_rand)))
+//@ ensures f5: vc.Imp(ak != nil, vcA6(ak) == milspec.F5(vcA16(opc), vcA16(k), vcA16(_rand)))
+//@ ensures f5star: vc.Imp(akstar != nil, vcA6(akstar) == milspec.F5Star(vcA16(opc), vcA16(k), vcA16(_rand)))
+//@ assigns res, ck, ik, ak, akstar
+
+//@ func MilenageGenerate
+//@ prop C15
+//@ shape opc 16
+//@ shape amf 2
+//@ shape k 16
+//@ shape sqn 6
+//@ shape _rand 16
+//@ shape autn 16
+//@ shape ik 16
+//@ shape ck 16
+//@ shape ak 6
+//@ shape res 8
+//@ requires reslen: *res_len >= 8
+//@ ensures reslen: *res_len == 8
+//@ ensures autn: vcA16(autn) == milspec.AUTN(vcA16(opc), vcA16(k), vcA16(_rand), vcA6(sqn), vcA2(amf))
+//@ ensures res: vcA8(res) == milspec.F2(vcA16(opc), vcA16(k), vcA16(_rand))
+//@ ensures ck: vcA16(ck) == milspec.F3(vcA16(opc), vcA16(k), vcA16(_rand))
+//@ ensures ik: vcA16(ik) == milspec.F4(vcA16(opc), vcA16(k), vcA16(_rand))
+//@ ensures ak: vcA6(ak) == milspec.F5(vcA16(opc), vcA16(k), vcA16(_rand))
+//@ assigns autn, ik, ck, ak, res, res_len
+
+//@ func Milenage_check
+//@ prop C15
+//@ shape opc 16
+//@ shape k 16
+//@ shape sqn 6
+//@ shape _rand 16
+//@ shape autn 16
+//@ shape ik 16
+//@ shape ck 16
+//@ shape res 8
+//@ shape auts 14
+//@ let rx := milspec.Xor6(vcA6(autn), milspec.F5(vcA16(opc), vcA16(k), vcA16(_rand)))
+//@ let macok := vcA8(autn[8:]) == milspec.F1(vcA16(opc), vcA16(k), vcA16(_rand), rx, vcA2(autn[6:]))
+//@ let fresh := milspec.Greater(rx, vcA6(sqn))
+//@ ensures accept: (result == 0) == (fresh && macok)
+//@ ensures reject: vc.Imp(fresh && !macok, result == -1)
+//@ ensures resync: vc.Imp(!fresh, result == -2 && vcA14(auts) == milspec.AUTS(vcA16(opc), vcA16(k), vcA16(_rand), vcA6(sqn)))
+//@ ensures keys: vc.Imp(result == 0, *res_len == 8 && vcA8(res) == milspec.F2(vcA16(opc), vcA16(k), vcA16(_rand)) && vcA16(ck) == milspec.F3(vcA16(opc), vcA16(k), vcA16(_rand)) && vcA16(ik) == milspec.F4(vcA16(opc), vcA16(k), vcA16(_rand)))
+//@ assigns ik, ck, res, res_len, auts
+
+//@ func Milenage_auts
+//@ prop C15
+//@ shape opc 16
+//@ shape k 16
+//@ shape _rand 16
+//@ shape auts 14
+//@ shape sqn 6
+//@ let sq := milspec.Xor6(vcA6(auts), milspec.F5Star(vcA16(opc), vcA16(k), vcA16(_rand)))
+//@ ensures accept: (result == 0) == (vcA8(auts[6:]) == milspec.F1Star(vcA16(opc), vcA16(k), vcA16(_rand), sq, [2]byte{0, 0}))
+//@ ensures other: result == 0 || result == -1
+//@ ensures sqn: vc.Imp(result == 0, vcA6(sqn) == sq)
+//@ assigns sqn
